@@ -208,6 +208,20 @@ fn oracle_point(p: &Point) -> Report {
         }
     }
 
+    // ---- the format kind (date-time vs elapsed time) does not change the calendar conversion
+    let as_delta = ExcelDateTime::new(v, ExcelDateTimeType::TimeDelta, is_1904);
+    match guard(|| as_delta.as_datetime()) {
+        Err(e) => {
+            rep.fail(format!("as_datetime({v:e}) on an elapsed-time cell: {e}"));
+            return rep;
+        }
+        Ok(d) if d != got => {
+            rep.fail(format!("as_datetime({v:?}, 1904={is_1904}) = {d:?} on an elapsed-time (TimeDelta) cell but {got:?} on a date-time cell"));
+            return rep;
+        }
+        Ok(_) => {}
+    }
+
     // ---- duration = serial * 24h rounded to the millisecond
     let dur = ExcelDateTime::new(v, ExcelDateTimeType::TimeDelta, is_1904);
     match guard(|| (dur.as_duration(), Data::DateTime(dur).as_duration())) {
@@ -314,7 +328,8 @@ fn point_strategy() -> impl Strategy<Value = Point> {
         6 => (day_strategy(), frac_ms_strategy()).prop_map(|(d, f)| (d as f64 + f).max(0.0)),
         2 => (0.0f64..2_958_466.0),
         1 => (2_958_466.0f64..9.0e7),
-        1 => prop_oneof![Just(1.0e8), Just(1.0e9), Just(1e15), Just(1e20), Just(1e300), Just(f64::MAX), Just(f64::INFINITY), Just(f64::NEG_INFINITY), Just(f64::NAN),
+        1 => prop_oneof![Just(1.0e8), Just(-1.0e8), Just(1.0e10), Just(-1.0e9), Just(1.06e11), 9.6e7f64..1.0e11,
+                         Just(1.0e9), Just(1e15), Just(1e20), Just(1e300), Just(f64::MAX), Just(f64::INFINITY), Just(f64::NEG_INFINITY), Just(f64::NAN),
                          Just(-1e20), Just(-1e300), Just(-1.0), Just(-0.5), Just(-1e-300), Just(f64::MIN_POSITIVE), Just(5e-324), Just(-2958465.0), Just(-9.3e18 / 86_400_000.0), Just(9.3e18 / 86_400_000.0)],
         1 => any::<f64>(),
     ];
@@ -432,10 +447,10 @@ fn helpers_check(ctx: &mut Ctx) {
                 let d = calamine::deserialize_as_datetime_or_string(cell.to_cell_deserializer((0, 0))).unwrap();
                 (a, b, c, d)
             });
-            let exp = (cell.as_datetime(), cell.as_date(), cell.as_time(), cell.as_datetime().ok_or_else(|| cell.to_string()));
-            let bad = match r {
-                Err(e) => Some(e),
-                Ok(got) if got != exp => Some(format!("helpers give {got:?}, trait conversions give {exp:?}")),
+            let exp = guard(|| (cell.as_datetime(), cell.as_date(), cell.as_time(), cell.as_datetime().ok_or_else(|| cell.to_string())));
+            let bad = match (r, exp) {
+                (Err(e), _) | (_, Err(e)) => Some(e),
+                (Ok(got), Ok(exp)) if got != exp => Some(format!("helpers give {got:?}, trait conversions give {exp:?}")),
                 _ => None,
             };
             if let (Some(b), true) = (bad, fail.is_none()) {
